@@ -153,6 +153,41 @@ func (k recStaking) GetHistoricalInfo(ctx context.Context, height int64) (stakin
 	return k.StakingKeeper.GetHistoricalInfo(ctx, height)
 }
 
+func (k recStaking) GetValidatorByConsAddr(ctx context.Context, consAddr sdk.ConsAddress) (stakingtypes.Validator, error) {
+	if k.r.hit("staking.GetValidatorByConsAddr", "") {
+		return stakingtypes.Validator{}, errInjected
+	}
+	return k.StakingKeeper.GetValidatorByConsAddr(ctx, consAddr)
+}
+
+func (k recStaking) GetValidator(ctx context.Context, addr sdk.ValAddress) (stakingtypes.Validator, error) {
+	if k.r.hit("staking.GetValidator", "") {
+		return stakingtypes.Validator{}, errInjected
+	}
+	return k.StakingKeeper.GetValidator(ctx, addr)
+}
+
+func (k recStaking) GetBondedValidatorsByPower(ctx context.Context) ([]stakingtypes.Validator, error) {
+	if k.r.hit("staking.GetBondedValidatorsByPower", "") {
+		return nil, errInjected
+	}
+	return k.StakingKeeper.GetBondedValidatorsByPower(ctx)
+}
+
+func (k recStaking) MaxValidators(ctx context.Context) (uint32, error) {
+	if k.r.hit("staking.MaxValidators", "") {
+		return 0, errInjected
+	}
+	return k.StakingKeeper.MaxValidators(ctx)
+}
+
+func (k recStaking) MinCommissionRate(ctx context.Context) (math.LegacyDec, error) {
+	if k.r.hit("staking.MinCommissionRate", "") {
+		return math.LegacyDec{}, errInjected
+	}
+	return k.StakingKeeper.MinCommissionRate(ctx)
+}
+
 func (k recStaking) GetLastValidatorPower(ctx context.Context, operator sdk.ValAddress) (int64, error) {
 	if k.r.hit("staking.GetLastValidatorPower", "") {
 		return 0, errInjected
